@@ -775,6 +775,11 @@ fn canonicalize_n(colptr: [usize; 3]) {
 
 #[kani::proof]
 #[kani::unwind(8)]
+pub fn c16_canonicalize_20() {
+    canonicalize_n([0, 2, 2]);
+}
+#[kani::proof]
+#[kani::unwind(8)]
 pub fn c16_canonicalize_22() {
     canonicalize_n([0, 2, 4]);
 }
